@@ -30,6 +30,8 @@ mod gens;
 mod isolate;
 #[cfg(feature = "likelysubtags")]
 mod libsim;
+#[cfg(all(gens_use_libgen, feature = "libgen"))]
+mod libgen;
 mod oracle;
 mod rng;
 mod rsparse;
@@ -1778,7 +1780,8 @@ fn cmd_check(a: &Args) -> i32 {
                 "read_errors_eio_injected_in_gating_runs": sum.read_faults_injected,
                 "runs_in_which_the_output_device_filled_up_enospc_in_gating_runs": sum.write_faults_injected,
                 "metadata_queries_failed_with_eio_in_gating_runs": sum.stat_faults_injected,
-                "hard_io_faults_in_gating_runs": "three kinds, never two in one run: EIO on one seeded read (a sixth of the seeded runs), the output device filling up (ENOSPC, an eighth), EIO on one seeded path-based metadata query (stat; an eighth; 0 injected means the program asks for no metadata, as the pinned generators). A run that meets one may fail loudly (the pinned generators do: expect(), println!) but may not complete with a different table. Missing files, torn or corrupt content and listing errors stay in the non-gating exploration (DESIGN §4.4)",
+                "thread_creations_failed_with_eagain_in_gating_runs": sum.spawn_faults_injected,
+                "hard_io_faults_in_gating_runs": "four kinds, never two in one run: EIO on one seeded read (a sixth of the seeded runs), the output device filling up (ENOSPC, an eighth), EIO on one seeded path-based metadata query (stat; an eighth; 0 injected means the program asks for no metadata, as the pinned generators), EAGAIN on one seeded thread creation (a tenth; 0 injected means the program starts no threads, as the pinned generators). A run that meets one may fail loudly (the pinned generators do: expect(), println!) but may not complete with a different table. Missing files, torn or corrupt content and listing errors stay in the non-gating exploration (DESIGN §4.4)",
             },
             "hard_fault_exploration_not_gating": {
                 "note": "separate batch, outcomes counted but never judged: one hard fault per run (EIO / ENOENT on the k-th file read, torn file, flipped bit, error entry in the listing, failing read_dir) on top of the run's ordinary seeded schedule",
@@ -1924,6 +1927,7 @@ fn cmd_check(a: &Args) -> i32 {
                     "disk that outlives the process (sessions): overlay of written files with modification times, fsync tracking, crash points at every mutation and print, kill / power-loss resolution; unused by today's generators, which write nothing",
                     "metadata, modification times, Path/PathBuf queries (exists, is_file, metadata, read_dir): answered by the simulated file system",
                     "open-file limit: descriptor accounting, EMFILE beyond a seeded ulimit once a program holds 200 descriptors (today's generators hold 2)",
+                    "advisory file locks (File::lock/try_lock: inode table shared with a second instance), descriptor-level handles (std::os::fd look-alikes over the simulated stdout, stderr and files), thread creation that may fail with EAGAIN, path-based metadata queries that may fail with EIO: all unused by today's generators",
                 ],
             },
             "replays": reported.iter().map(|(v, p)| json!({"signature": v.signature, "file": p.display().to_string()})).collect::<Vec<_>>(),
@@ -1933,8 +1937,8 @@ fn cmd_check(a: &Args) -> i32 {
             "generator_source_digest": format!("{:016x}", ctx.gen_src_digest),
         },
         "assumptions": [
-            "the nondeterminism a maintainer's machine can present to the generators is: directory enumeration order, HashMap/HashSet iteration order, short reads/writes and EINTR on streams, and — for a generator that uses them — thread interleaving at synchronisation points, the core count, the clock and how long other threads are kept off the CPU; hard I/O errors are out of the property's scope",
-            "a run in which an injected stall let a deadline pass, an open failed with the injected EMFILE, or — in a session — leftovers of earlier runs were found may fail loudly without being judged; it may not complete with a different table",
+            "the nondeterminism a maintainer's machine can present to the generators is: directory enumeration order, HashMap/HashSet iteration order, short reads/writes and EINTR on streams, and — for a generator that uses them — thread interleaving at synchronisation points, the core count, the clock and how long other threads are kept off the CPU; hard I/O errors other than the gating ones are out of the property's scope",
+            "a run in which an injected stall let a deadline pass, an open failed with the injected EMFILE, one read or one path-based metadata query failed with EIO, the output device filled up (ENOSPC), one thread creation failed with EAGAIN, or — in a session — leftovers of earlier runs were found may fail loudly without being judged; it may not complete with a different table",
             "crash model: a killed process loses nothing the kernel accepted (the write in progress may be torn); after a power loss every change not followed by fsync is old, new, torn or empty independently per path; rename is atomic; directory fsync is not modelled (a rename may be lost, never half done)",
             "earlier data versions differ from the bundled data by missing / extra / exchanged child directories or missing / swapped entry lines, and changed files carry a different modification time; a change that keeps both length and modification time is not generated",
             "any permutation of a directory listing is a legal read_dir order; iteration order of a hash container is a function of its hasher keys, capacity and content, optionally rotated/reversed by the simulator",
@@ -2415,6 +2419,7 @@ fn cmd_trace(a: &Args) -> i32 {
                         Decision::ReadFault { at } => Some(format!("eio@read{}", at)),
                         Decision::WriteFault { at } => Some(format!("enospc@byte{}", at)),
                         Decision::StatFault { at } => Some(format!("eio@stat{}", at)),
+                        Decision::SpawnFault { at } => Some(format!("eagain@spawn{}", at)),
                         _ => None,
                     })
                     .collect();
